@@ -7,7 +7,7 @@ PROP = "coq/C13/Properties_C13.v"
 EXTRACT = "coq/C13/Extract_C13.v"
 DRIVER = "props/C13/driver.ml"
 UNIT_SRC = ["props/C13/unit.cpp"]
-FUEL = 60
+FUEL = 160        # GenDeps_enable_terminates: 4 levels * 39 + 38 < 160
 NATOMS = 12
 
 SEED_CONF = """colvar {
@@ -396,6 +396,62 @@ def model_line(lagged, opline, st):
     return "OP %d %d %s %s ST %s" % (1 if lagged else 0, FUEL, op, " ".join(args), D.encode_state(st))
 
 
+def obj_index(st, desc):
+    k = [j for j, ob in enumerate(st["objs"]) if ob["desc"] == desc]
+    return k[0] if len(k) == 1 else None
+
+
+def shape_tokens(avail):
+    return [str(len(avail))] + [str(a) for a in avail]
+
+
+def module_case(ev, blk, prev, cur, lag):
+    """the model's module-level operation that corresponds to a history event, as a driver line, or None.
+    Returns (line, compare_feature_states)"""
+    if not D.encodable(prev):
+        return None
+    head = "MOP %d %d " % (lag, FUEL)
+    tail = " " + D.encode_mstate(prev, NATOMS)
+    op = ev["op"]
+    if op == "delbias" and "SCRIPT err=ok" in blk:
+        k = obj_index(prev, "bias_" + ev["name"])
+        return (head + "deletebias %d" % k + tail, True) if k is not None else None
+    if op == "delcv" and "SCRIPT err=ok" in blk:
+        k = obj_index(prev, "colvar_" + ev["name"])
+        return (head + "deletecolvar %d" % k + tail, True) if k is not None else None
+    if op == "reset":
+        return (head + "reset" + tail, True)
+    if op == "set" and "SCRIPT err=ok" in blk:
+        k = obj_index(prev, ("colvar_" if ev["kind"] == "colvar" else "bias_") + ev["name"])
+        if k is None or ev["fid"] >= len(prev["objs"][k]["fs"]):
+            return None
+        return (head + "%s %d %d" % ("enable" if ev["val"] else "disable", k, ev["fid"]) + tail, True)
+    if op in ("addcv", "addbias") and "CONFIG err=ok" in blk and len(cur["objs"]) > len(prev["objs"]):
+        # structure only (links, numbering, atoms): which features an init function requests is not modelled
+        if op == "addbias":
+            k = len(cur["objs"]) - 1
+            ob = cur["objs"][k]
+            if ob["cls"] != 0 or len(cur["objs"]) != len(prev["objs"]) + 1:
+                return None
+            t = ["newbias"] + shape_tokens([f[0] for f in ob["fs"]]) + [str(len(ob["ch"]))] + [str(c) for c in ob["ch"]]
+            return (head + " ".join(t) + tail, False)
+        tops = [j for j, ob in enumerate(cur["objs"]) if ob["cls"] == 1]
+        if not tops:
+            return None
+        v = tops[-1]
+        ob = cur["objs"][v]
+        t = ["newcolvar"] + shape_tokens([f[0] for f in ob["fs"]]) + [str(len(ob["ch"]))]
+        for c in ob["ch"]:
+            co = cur["objs"][c]
+            t += shape_tokens([f[0] for f in co["fs"]]) + [str(len(co["ch"]))]
+            for g in co["ch"]:
+                go = cur["objs"][g]
+                held = go.get("atoms", []) + go.get("fit", [])
+                t += shape_tokens([f[0] for f in go["fs"]]) + [str(len(held))] + [str(a) for a in held]
+        return (head + " ".join(t) + tail, False)
+    return None
+
+
 # ------------------------------------------------------------------ findings (root causes) and their fixed witnesses
 F1 = "double-release-on-delete-of-inactive-bias"
 F2 = "variable-deactivated-when-last-bias-deleted"
@@ -613,14 +669,17 @@ def check(run):
             cur = dumps[-1]
             final = cur
             part = {"id": seq["id"], "samestep": seq["samestep"], "events": seq["events"][:i + 1]}
-            # model replay of the deletion of a bias
-            if ev["op"] == "delbias" and "SCRIPT err=ok" in blk and D.encodable(prev):
-                k = [j for j, ob in enumerate(prev["objs"]) if ob["desc"] == "bias_" + ev["name"]]
-                if len(k) == 1:
-                    mlines.append("OP %d %d deletebias %d ST %s" % (lag, FUEL, k[0], D.encode_state(prev)))
-                    mexpect.append(("delete", k[0], cur, part, None, None))
-                    ndel += 1
-            bad = D.monitor(tabs, cur)
+            # model replay of the event (deletion of a bias / of a variable with its biases, reset, script set of a
+            # feature; structure only for definitions)
+            mc = module_case(ev, blk, prev, cur, lag)
+            if mc is not None:
+                mlines.append(mc[0])
+                mexpect.append(("mop", ev["op"], cur, part, mc[1], None))
+                ndel += 1
+            bad = D.monitor(tabs, cur) + D.monitor_links(cur)
+            need = D.need_counts(tabs, cur)
+            leak = sum(1 for oi, ob in enumerate(cur["objs"]) for g, f in enumerate(ob["fs"]) if f[2] > need[oi][g])
+            run.dist("dump:ref_count-above-accounted-need" if leak else "dump:ref_count-equals-accounted-need")
             new = [b for b in bad if b[1] not in prev_bad]
             prev_bad = set(b[1] for b in bad)
             if new and not tainted:
@@ -666,18 +725,22 @@ def check(run):
     if len(mout) != len(mlines):
         run.mismatch("primitive:model-run", {"n": len(mlines)}, "%d cases" % len(mlines), "%d answers (rc=%d) %s" % (len(mout), rc, e[-300:]))
     for ml, mo, ex in zip(mlines, mout, mexpect):
-        if ex[0] == "delete":
-            _, k, cur, part, _, _ = ex
+        if ex[0] == "mop":
+            _, evop, cur, part, with_fs, _ = ex
             run.count(ml, True)
-            run.dist("model:delete_bias")
+            run.dist("model:" + evop)
+            comp = "module:" + evop
             w = mo.split()
-            if w[0] != "0":
-                run.mismatch("delete_bias", {"scenario": scenario(part), "model_case": ml}, "deleted", mo[:200])
+            if not w or w[0] != "0":
+                run.mismatch(comp, {"scenario": scenario(part), "model_case": ml}, "event replayed", mo[:200])
                 continue
-            got = D.encode_state(renumber_without(decode_state(w[1:]), k))
-            exp = D.encode_state(cur)
-            if got != exp:
-                run.mismatch("delete_bias", {"scenario": scenario(part), "model_case": ml}, exp[:3000], got[:3000])
+            got, err = D.canon_mstate(D.decode_mstate(w[1:]))
+            if got is None:
+                run.mismatch(comp, {"scenario": scenario(part), "model_case": ml}, "a state without dangling references", err)
+                continue
+            kg, kc = D.mstate_key(got, with_fs), D.mstate_key(cur, with_fs)
+            if kg != kc:
+                run.mismatch(comp, {"scenario": scenario(part), "model_case": ml}, str(kc)[:3000], str(kg)[:3000])
             continue
         _, exp, opl, seq, k, ops = ex
         pre_tokens = ml.split(" ST ")[1]
@@ -695,7 +758,7 @@ def check(run):
             run.mismatch("primitive:" + kind, {"op": opl, "scenario": scenario(seq, dumps=False, tail=tail), "model_case": ml},
                          exp[:3000], mo[:3000])
     if mlines:
-        run.sample({"primitive_case": mlines[-1][:300] + " ...", "impl": mexpect[-1][1][:120] if mexpect[-1][0] == "prim" else "delete"})
+        run.sample({"primitive_case": mlines[-1][:300] + " ...", "impl": mexpect[-1][1][:120] if mexpect[-1][0] == "prim" else "module event"})
 
     # ---- (3) define/delete identity on the implementation: survivors-only re-run
     r2 = V.rng("C13-identity")
@@ -734,7 +797,7 @@ def check(run):
         run.dist("identity:histories")
         run.dist("identity:deletions", ndeleted)
         compare_identity(run, seq, ref, f1[-1], f2[-1], o1, o2, tabs, f1_hit)
-    run.cov["correspondence"].update({"histories": len(seqs), "primitive_cases": nprim, "delete_bias_cases": ndel, "identity_histories": nid})
+    run.cov["correspondence"].update({"histories": len(seqs), "primitive_cases": nprim, "module_event_cases": ndel, "identity_histories": nid})
 
 
 def table_oracles(run, tabs, label):
